@@ -32,10 +32,17 @@ def oracle_pr(ck, b, s, J, x, o=2, ri=-1):
         ck.fail(desc + ': output extent %s, expected the even-extended %s' % (tuple(y.shape[-2:]), (H + H % 2, W + W % 2)), replay); return 'shape'
     err = float(np.max(np.abs(y[..., :H, :W] - x)))
     sc = max(1.0, float(np.max(np.abs(x))))
-    tol = 1e-7 if s != 'qshift_06' else 1e-7
-    if err > tol * sc:
-        ck.fail(desc + ': max reconstruction error %.3g (scale %.3g)' % (err, sc), replay); return 'diff'
-    ck.oracle_ok((b, s, J, tuple(x.shape), o, ri), group='pr', sample={'filters': '%s/%s' % (b, s), 'J': J, 'shape': list(x.shape), 'max_err': err})
+    # yardstick: the reference package's own round trip on the same input with the same tables (the tables are
+    # only PR to their stored precision); the library may be 10x worse, or 1e-12 of the scale
+    ref_err = 0.0
+    for n_ in range(x.shape[0]):
+        for c_ in range(x.shape[1]):
+            lo_, hs_ = OD.forward(x[n_, c_], b, s, J)
+            r_ = OD.inverse(lo_, hs_, b, s)
+            ref_err = max(ref_err, float(np.max(np.abs(r_[:H, :W] - x[n_, c_]))))
+    if err > max(10 * ref_err, 1e-12 * sc):
+        ck.fail(desc + ': max reconstruction error %.3g (reference package on the same input: %.3g, scale %.3g)' % (err, ref_err, sc), replay); return 'diff'
+    ck.oracle_ok((b, s, J, tuple(x.shape), o, ri), group='pr', sample={'filters': '%s/%s' % (b, s), 'J': J, 'shape': list(x.shape), 'max_err': err, 'reference_err': ref_err})
     return None
 
 
